@@ -14,8 +14,10 @@ Replaced by the harness (everything else is the code under test):
     with a real telemetry.Telemetry holding one recording internal device). The REAL `ProcessLauncher.stop` runs against a fake
     `psutil` (launcher.psutil is replaced by a shim whose Process(pid) consults the harness' process table: alive | early = gone
     before stop looks it up (NoSuchProcess from psutil.Process) | late = dies while being terminated (NoSuchProcess from terminate)
-    | stubborn = ignores SIGTERM (TimeoutExpired from wait, then kill)). Observed per node: look-ups by stop() (= the node was
-    handled by stop), terminate() calls, system metrics stored by the node's telemetry (each produces a real
+    | stubborn = ignores SIGTERM (TimeoutExpired from wait, then kill) | vanish = still there after the grace period, gone when
+    SIGKILL is sent (TimeoutExpired from wait, NoSuchProcess from kill)); wait() never blocks. An exception that escapes the real
+    stop() is counted (env.esc) and re-raised. Observed per node: look-ups by stop() (= the node was
+    handled by stop), terminate() and kill() calls, system metrics stored by the node's telemetry (each produces a real
     `final_index_size_bytes` record, as the real IndexSize device does at shutdown), results stored by Mechanic._add_results and
     whether they contain that shutdown metric. The metrics store is the real InMemoryMetricsStore made buffering like the
     Elasticsearch store (records are searchable only after flush(refresh=True)).
@@ -25,7 +27,7 @@ Replaced by the harness (everything else is the code under test):
   * race control and the actor system's convention notifier are endpoints driven by the harness.
   * `sysstats.cpu_model` (0.2 s per call in telemetry.add_metadata_for_node) returns a constant.
 Decisions: ('deliver', src, dst[, outcome]) | ('wakeup', actor) | ('join', ip) | ('leave', ip) | ('rc', 'stop'|'reset0'|'reset1'|'teardown')
-           | ('proc', node id, 'early'|'late'|'stubborn') | ('rc', 'restart')
+           | ('proc', node id, 'early'|'late'|'stubborn'|'vanish') | ('rc', 'restart')
            (outcome of a StartNodes delivery: 'ok'|'create'|'launch'; of a StopNodes / ActorExitRequest delivery to a node actor that
            still has its mechanic: 'known'|'unknown' = whether the race store of that host knows the race; never on a remote host)
 Reuse: ('rc', 'restart') is offered once EngineStopped has arrived and everything belonging to the finished lifecycle has drained
@@ -41,6 +43,9 @@ import thespian.actors as ta
 from . import racesim, tlc
 from .simactor import SimActorSystem
 from .vclock import VirtualClock
+
+PROC_CONDS = ("early", "late", "stubborn", "vanish")
+
 
 def node_prefix(cyc):
     """provisioning/node.name.prefix of lifecycle cyc: node names tell which lifecycle a node belongs to."""
@@ -148,7 +153,14 @@ class MechWorld:
                 world.calls.append(("sysmetrics", n))
 
         class RecLauncher(launcher.ProcessLauncher):
-            # stop() is the real one
+            # stop() is the real one; what escapes from it is counted and passed on
+            def stop(self_, nodes, metrics_store):
+                try:
+                    return super().stop(nodes, metrics_store)
+                except BaseException:
+                    world.esc += 1
+                    raise
+
             def _start_node(self_, node_configuration, node_count_on_host):
                 if world.next_outcome == "launch":
                     raise RuntimeError("verif: node %s does not start" % node_configuration.node_name)
@@ -177,13 +189,15 @@ class MechWorld:
                     raise psutil.NoSuchProcess(self_.pid)
 
             def wait(self_, timeout=None):
-                if self_.o["proc"] == "stubborn":
+                if self_.o["proc"] in ("stubborn", "vanish"):
                     raise psutil.TimeoutExpired(timeout, self_.pid)
                 return 0
 
             def kill(self_):
                 self_.o["kills"] += 1
                 world.calls.append(("kill", self_.n))
+                if self_.o["proc"] == "vanish":
+                    raise psutil.NoSuchProcess(self_.pid)
 
         class PsutilShim:
             Process = FakeProcess
@@ -300,6 +314,7 @@ class MechWorld:
         # observations (the property's observation point), per lifecycle
         self.nd = [{"starts": 0, "stops": 0, "term": 0, "kills": 0, "sysm": 0, "stored": 0, "shut": 0, "dir": None, "proc": "alive", "race": "none"} for _ in range(self.n_nodes)]
         self.nd_by_cyc[self.cyc] = self.nd
+        self.esc = 0  # exceptions that escaped ProcessLauncher.stop in this lifecycle
         self.procs = 0  # number of node processes the environment has put into a condition other than alive
         self.left = set()
         self.fault = "none"
@@ -492,7 +507,7 @@ class MechWorld:
         if self.procs < max_procs:
             for n in self.running_nodes():
                 if self.nd[n]["proc"] == "alive":
-                    for c in ("early", "late", "stubborn"):
+                    for c in PROC_CONDS:
                         res.append(("proc", n, c))
         if faults and self.fault == "none" and self.listening():
             d = self.inst(self.D)
@@ -696,7 +711,7 @@ class MechWorld:
                 inst_dir = "absent"
             else:
                 inst_dir = "present" if os.path.isdir(x["dir"]) else "removed"
-            nd.append({"starts": x["starts"], "stops": x["stops"], "term": x["term"], "sysm": x["sysm"], "stored": x["stored"], "shut": x["shut"], "inst": inst_dir, "proc": x["proc"], "race": x["race"]})
+            nd.append({"starts": x["starts"], "stops": x["stops"], "term": x["term"], "kills": x["kills"], "sysm": x["sysm"], "stored": x["stored"], "shut": x["shut"], "inst": inst_dir, "proc": x["proc"], "race": x["race"]})
         st = self._state(d2n, n2m, m2n, n2d, mech, disp, na, nd, ho)
         # messages travelling between pairs of actors the model has no channel for (must be none)
         st["other"] = sum(len(q) for key, q in sim.chan.items() if key not in self._projected)
@@ -721,5 +736,5 @@ class MechWorld:
             "na": na,
             "nd": nd,
             "ho": ho,
-            "env": {"up": sorted(self.up), "left": sorted(self.left), "fault": self.fault, "stopSent": self.stop_sent, "resets": self.resets, "torn": self.torn, "procs": self.procs, "cyc": self.cyc, "stale": 0},
+            "env": {"up": sorted(self.up), "left": sorted(self.left), "fault": self.fault, "stopSent": self.stop_sent, "resets": self.resets, "torn": self.torn, "procs": self.procs, "cyc": self.cyc, "stale": 0, "esc": self.esc},
         }
